@@ -54,11 +54,15 @@ def run_model(sizes, rand_sizes, den, maxg, emit=True, timeout=1500):
                    workers='auto', timeout=timeout)
 
 
-def run_mutant_catalogue(timeout=300):
-    """Model-level control: a catalogue in which NORMAL_HALTON3 advertises base 2 must violate DistinctBases."""
-    extra = ('G_MutCat == [nm \\in DOMAIN Cat |-> IF nm = "NORMAL_HALTON3" THEN [Cat[nm] EXCEPT !.base = 2] ELSE Cat[nm]]\n')
+def run_mutant_model(timeout=300):
+    """Model-level control (this is the defect of the unchanged tree, planted in the model): a generator
+    model in which every normal Halton entry uses base 2 while the catalogue keeps advertising 2, 3, 5
+    must violate DistinctBases."""
+    extra = ('G_MutUnderlying(e, nn, RR) ==\n'
+             '    IF e.fam = "halton" THEN {[k \\in 1..GLen(e, nn, RR) |-> RadInv(e.skip + k, IF e.normal THEN 2 ELSE e.base)]}\n'
+             '    ELSE {[k \\in 1..GLen(e, nn, RR) |-> Zero]}\n')
     mod = root_module([(1, 7)], [(1, 1)], catalogue=False, extra=extra)
-    return tlc.run('DrawTypesMC', cfg(2, 1, ['DistinctBases'], overrides=' Cat <- G_MutCat\n'),
+    return tlc.run('DrawTypesMC', cfg(2, 1, ['DistinctBases'], overrides=' Underlying <- G_MutUnderlying\n'),
                    extra_modules={'DrawTypesMC': mod}, workers=1, timeout=timeout)
 
 
@@ -321,14 +325,26 @@ def strip(ev: dict) -> dict:
     return {k: v for k, v in ev.items() if not k.startswith('_')}
 
 
-def validate(events: list, timeout: int = 1500, parts: int = 1):
-    """-> ({tid: verdict record}, [TLC results]).  `parts` > 1 runs that many JVMs side by side
+def balanced(events: list, parts: int) -> list:
+    """Split events into `parts` groups of about the same number of points."""
+    groups = [[] for _ in range(max(1, parts))]
+    load = [0] * len(groups)
+    for ev in sorted(events, key=lambda e: -len(e.get('pts', e.get('oks', [])))):
+        k = load.index(min(load))
+        groups[k].append(ev)
+        load[k] += len(ev.get('pts', ev.get('oks', []))) + 5
+    return [sorted(g, key=lambda e: e['tid']) for g in groups if g]
+
+
+def validate(events: list, timeout: int = 1500, parts: int = 1, chunks: list | None = None):
+    """-> ({tid: verdict record}, [TLC results]).  Several chunks run in as many JVMs side by side
     (each one worker: a trace is a linear walk)."""
     from concurrent.futures import ThreadPoolExecutor
 
     work = tlc.scratch_dir('vb-dtrace-')
     try:
-        chunks = [events[k::parts] for k in range(parts)] if parts > 1 else [events]
+        if chunks is None:
+            chunks = balanced(events, parts) if parts > 1 else [events]
         chunks = [c for c in chunks if c]
         mod = root_module([(1, 1)], [(1, 1)], name='DrawTypesTraceRun', extends='DrawTypesTrace', catalogue=False)
         cfg_text = cfg(2, 1, ['Progress'], spec='TraceSpec')
